@@ -168,7 +168,7 @@ def make_run(seed, i):
                 fname = "data." + fmt
                 text = _json.dumps(w["models"][0][1], ensure_ascii=False, indent=(1 if fmt == "yaml" else None))
             argv = ["-m", "Cli%d" % t, "{DIR}/" + fname, "--datetime", "-f", o["framework"], "-s", o["structure"],
-                    "--max-strings-literals", str(o["max_literals"]), "--merge", *o["merge"]]
+                    "--max-strings-literals", str(o["max_literals"])] + (["--merge", *o["merge"]] if o.get("merge") else [])
             if fmt != "json":
                 argv += ["-i", fmt]
             specs[t] = {"cli": {"dir": "t%d" % t, "files": {fname: text}, "argv": argv, "out": crng.random() < 0.4}}
